@@ -326,6 +326,10 @@ class BatchAxis:
                         iff = anc_[j - 1]
                     if iff is not None and iff.get("k") == "If" and iff.get("else") is not None:
                         self.guarded_slices.add(id(n_))
+                    elif iff is not None and iff.get("k") == "If" and any(z.get("k") == "Ret" for z in walk(iff["then"])):
+                        # `if let Some(flat) = x.as_slice_mut() { ..; return x; }` followed by the code for every other
+                        # layout: the fall-through is the fallback
+                        self.guarded_slices.add(id(n_))
                 if par is not None and par.get("k") == "Match" and par.get("src", "Normal") == "Normal" and len(par["arms"]) >= 2:
                     self.guarded_slices.add(id(n_))
         env = dict(batch_params)
